@@ -44,24 +44,39 @@ func EdgeFacts(g *cfgq.Graph, b *cfg.Block, succ int) []cfgq.Fact {
 		}
 		return []cfgq.Fact{{Expr: &ast.BinaryExpr{X: sw.Tag, Op: token.EQL, Y: c}, Val: val}}
 	}
-	return cfgq.Facts(c, val)
+	fs := expandFacts(g, cfgq.Facts(c, val))
+	if g.Prog != nil {
+		// cfgq adds the facts implied by the result of a same-package predicate helper
+		base := len(cfgq.Facts(c, val))
+		if all := g.EdgeFacts(b, succ); len(all) > base {
+			fs = append(fs, all[base:]...)
+		}
+	}
+	return fs
 }
 
-func enclosingSwitch(root ast.Node, cc *ast.CaseClause) *ast.SwitchStmt {
-	if cc == nil {
-		return nil
-	}
-	var out *ast.SwitchStmt
-	ast.Inspect(root, func(n ast.Node) bool {
-		if sw, ok := n.(*ast.SwitchStmt); ok && out == nil {
-			for _, s := range sw.Body.List {
-				if s == ast.Stmt(cc) {
-					out = sw
+// expandFacts adds what a fact implies through one level of indirection: a
+// boolean local with a single definition stands for that definition
+// (`valid := a && b; if !valid {..}`), and the result of a same-package
+// predicate helper implies the facts that hold on all of its paths with that
+// result (cfgq.EdgeFacts).
+func expandFacts(g *cfgq.Graph, fs []cfgq.Fact) []cfgq.Fact {
+	out := fs
+	for depth := 0; depth < 2; depth++ {
+		var more []cfgq.Fact
+		for _, f := range fs {
+			if id, ok := ast.Unparen(f.Expr).(*ast.Ident); ok {
+				if d := ValueOf(g.Info, g.Body, id); d != ast.Expr(id) {
+					more = append(more, cfgq.Facts(d, f.Val)...)
 				}
 			}
 		}
-		return out == nil
-	})
+		if len(more) == 0 {
+			break
+		}
+		out = append(out, more...)
+		fs = more
+	}
 	return out
 }
 
@@ -634,4 +649,22 @@ func stable(info *types.Info, body ast.Node, e ast.Expr) bool {
 		return ok
 	})
 	return ok
+}
+
+func enclosingSwitch(root ast.Node, cc *ast.CaseClause) *ast.SwitchStmt {
+	if cc == nil {
+		return nil
+	}
+	var out *ast.SwitchStmt
+	ast.Inspect(root, func(n ast.Node) bool {
+		if sw, ok := n.(*ast.SwitchStmt); ok && out == nil {
+			for _, s := range sw.Body.List {
+				if s == ast.Stmt(cc) {
+					out = sw
+				}
+			}
+		}
+		return out == nil
+	})
+	return out
 }
